@@ -32,6 +32,13 @@ EXPIRY_RELAY.update(name="expiryrelay", design=[],
                     gen=dict(module="MCCore.tla", cfgs=[("gen_core_expire_relay.cfg", 1.0)], quick=(32, 40), thorough=(320, 60)),
                     harness=dict(family="core", chains=3, links=T3, params={"short": [["C", "B"]]}))
 
+# A-B and A-C only: the relay chain does not know the destination (C11: "... and it knows the destination; otherwise it
+# records an error acknowledgement")
+SPARSE = copy.deepcopy(F.CORE)
+SPARSE.update(name="sparse", design=[],
+              gen=dict(module="MCCore.tla", cfgs=[("gen_core_sparse.cfg", 1.0)], quick=(24, 30), thorough=(240, 50)),
+              harness=dict(family="core", chains=3, links=[["A", "B"], ["A", "C"]]))
+
 PROPS = ["C16", "C14", "C20"]
 
 
